@@ -222,6 +222,8 @@ def run_mtree(case):
         # the scripted target is pure python and deterministic, so two differing replays of the same seed and the
         # same answers are a behaviour of the kernel -- and determinism in the seed is part of this property
         r = run_mdet(dict(case, choices=prefix))
+        if not r.get('viol'):
+            raise                      # not reproducible: a harness problem, never a verdict
         r.update(witness_kind='mdet', witness_choices=prefix)
         return r
     predrawn = R.predraw_A(case['seed'], case['dim'], case['n'] + case['w'])
@@ -493,9 +495,9 @@ def _tree_cases(ctx):
         for sk in ('h', 'v'):
             for w in (0, 1, 2):
                 for n in range(1, max_steps - w + 1):
-                    for s in (seeds if n + w < 6 else seeds[:2]):
+                    for s in (seeds if n + w < 6 else seeds[:1]):
                         for start in ((0.0,) if q else (0.0, -3.0)):
-                            if start != 0.0 and n + w > 5:
+                            if start != 0.0 and n + w > 4:
                                 continue
                             c = {'kind': 'mtree', 'dim': dim, 'sigma': sk, 'n': n, 'w': w, 'seed': s, 'start': start,
                                  'alph': 'A7'}
@@ -549,7 +551,10 @@ def _nuts_cases(ctx):
                     for md in (0, 2, 5) if q else (0, 1, 2, 5, 8):
                         for st in (0,) if q else (0, 1):
                             for step, tp in ((None, None),) if q else ((None, None), (0.1, None), (1.5, None), (None, 0.9)):
-                                for s in seeds:
+                                # given initial stepsize / other target_prob: first start, 3 seeds only
+                                if (step, tp) != (None, None) and st != 0:
+                                    continue
+                                for s in (seeds if (step, tp) == (None, None) else seeds[:3]):
                                     cases.append({'kind': 'nuts', 'target': t, 'dim': dim, 'n_iter': n_iter,
                                                   'n_adapt': n_adapt, 'max_depth': md, 'start': st, 'stepsize': step,
                                                   'target_prob': tp, 'seed': s})
